@@ -45,6 +45,8 @@ impl SwiftField for Field32A {
     where
         Self: Sized,
     {
+        super::swift_utils::require_ascii(input, "Field 32A")?;
+
         // Field32A format: 6!n3!a15d (date + currency + amount)
         if input.len() < 10 {
             // Minimum: 6 digits date + 3 chars currency + 1 digit amount
@@ -114,6 +116,8 @@ impl SwiftField for Field32B {
     where
         Self: Sized,
     {
+        super::swift_utils::require_ascii(input, "Field 32B")?;
+
         // Field32B format: 3!a15d (currency + amount)
         if input.len() < 4 {
             // Minimum: 3 chars currency + 1 digit amount
@@ -200,6 +204,8 @@ impl SwiftField for Field32C {
     where
         Self: Sized,
     {
+        super::swift_utils::require_ascii(input, "Field 32C")?;
+
         // Same format as Field32A
         if input.len() < 10 {
             return Err(ParseError::InvalidFormat {
@@ -267,6 +273,8 @@ impl SwiftField for Field32D {
     where
         Self: Sized,
     {
+        super::swift_utils::require_ascii(input, "Field 32D")?;
+
         // Same format as Field32A
         if input.len() < 10 {
             return Err(ParseError::InvalidFormat {
